@@ -3,6 +3,7 @@ CONSTANTS
   MaxLen = 4
   ZeroEof = FALSE
   Quits = {0, 1, 2}
+  Socks = {FALSE}
   Filters = {0, 1, 2, 3, 4, 5, 6, 7}
 INVARIANT InvNothingLeft
 INVARIANT InvSlices
